@@ -41,6 +41,7 @@ type Field struct {
 	Toks   []Tok
 	Syn    []SynDef
 	Vec    *VecDef
+	TV     bool   // the IncludeTermVectors option (zapx stores locations whether or not it is set)
 	Shape  []byte // geo-shape field: the encoded shape (an extra doc value of the document, Spec.doc_shape)
 }
 type Doc struct {
@@ -141,6 +142,9 @@ func (a *apiField) Options() index.FieldIndexingOptions {
 	}
 	if a.f.DV {
 		o |= index.DocValues
+	}
+	if a.f.TV {
+		o |= index.IncludeTermVectors
 	}
 	return o
 }
